@@ -38,7 +38,8 @@ CONSTANTS
   ResumeRelooks,  \* TRUE: a released waiter looks the entry up again under its lock (repair of F1)
   AgeAtDecision,  \* TRUE: Age is computed by the lookup that decided the hit (repair of F4)
   LoadAtomic,     \* TRUE: a record is decoded aside and committed only if well-formed (repair of F6)
-  PurgeFences     \* TRUE: a purge marks the entry it removes so that it does not persist itself later (repair of F13)
+  PurgeFences,    \* TRUE: a purge marks the entry it removes so that it does not persist itself later (repair of F13)
+  Ghost           \* TRUE: maintain the observation state (FALSE: design invariants and liveness only, far fewer states)
 
 VARIABLES
   now, ticks,
@@ -59,6 +60,8 @@ vars == <<now, ticks, lru, ent, est, nextEnt, elock, slock, store,
           ppc, pkey, ptodo, pcur, starts, nver, purges, kills, drops, obs>>
 
 O == INSTANCE Obs
+
+G(x) == IF Ghost THEN x ELSE obs
 
 Shards == {ShardOf[k] : k \in Keys}
 DK == Disp \X Keys
@@ -145,7 +148,7 @@ Kill ==
   /\ rsend' = [r \in Req |-> <<>>]
   /\ ppc' = [p \in Purgers |-> "idle"]
   /\ ptodo' = [p \in Purgers |-> <<>>]
-  /\ obs' = O!OKill(obs)
+  /\ obs' = G(O!OKill(obs))
   /\ UNCHANGED <<now, ticks, nextEnt, store, rkey, rdisp, rmeth, rent, rst, rresp, rout, rttl, rver,
                  pkey, pcur, starts, nver, purges, drops>>
 
@@ -162,7 +165,7 @@ Start(r, k, d, m) ==
   /\ rver' = [rver EXCEPT ![r] = 0] /\ rout' = [rout EXCEPT ![r] = "none"]
   /\ rst' = [rst EXCEPT ![r] = IF m \in O!CacheMethods THEN "unknown" ELSE "passed"]
   /\ pc' = [pc EXCEPT ![r] = IF m \in O!CacheMethods THEN "lookup.lock" ELSE "next"]
-  /\ obs' = O!OStart(obs, r, k, d, m)
+  /\ obs' = G(O!OStart(obs, r, k, d, m))
   /\ UNCHANGED <<now, ticks, lru, ent, est, nextEnt, elock, slock, store, rttl, rsend,
                  ppc, pkey, ptodo, pcur, nver, purges, kills, drops>>
 
@@ -173,7 +176,7 @@ Lookup(r) ==
   /\ IF e # 0
      THEN /\ lru' = [lru EXCEPT ![d][z] = Front(@, k)]
           /\ rent' = [rent EXCEPT ![r] = e]
-          /\ obs' = O!OLooked(obs, r, e)
+          /\ obs' = G(O!OLooked(obs, r, e))
           /\ UNCHANGED <<ent, est, nextEnt>>
      ELSE /\ nextEnt <= MaxEnt
           /\ LET s1 == <<k>> \o lru[d][z]
@@ -184,7 +187,7 @@ Lookup(r) ==
              IN /\ lru' = [lru EXCEPT ![d][z] = s2]
                 /\ ent' = [ent EXCEPT ![d] = [x \in Keys |->
                               IF x = k THEN nextEnt ELSE IF over /\ x = victim THEN 0 ELSE ent[d][x]]]
-                /\ obs' = O!OLooked(o1, r, nextEnt)
+                /\ obs' = G(O!OLooked(o1, r, nextEnt))
           /\ est' = [est EXCEPT ![nextEnt] = FreshEntry(k, d)]
           /\ rent' = [rent EXCEPT ![r] = nextEnt]
           /\ nextEnt' = nextEnt + 1
@@ -231,7 +234,7 @@ GetStep(r, res) ==
   /\ pc' = [pc EXCEPT ![r] = IF wait THEN "get.recv"
                              ELSE IF E3.status = "hit" THEN (IF AgeAtDecision THEN "end" ELSE "age.lock")
                              ELSE "next"]
-  /\ obs' = o3
+  /\ obs' = G(o3)
   /\ UNCHANGED <<now, ticks, lru, ent, nextEnt, elock, slock, store, rkey, rdisp, rmeth, rent, rout, rttl, rsend, rver,
                  ppc, pkey, ptodo, pcur, starts, nver, purges, kills, drops>>
 
@@ -247,7 +250,7 @@ ArriveRecv(r) ==
      THEN LET s == CHOOSE s \in Req : pc[s] \in {"cab.sending", "hfp.sending"} /\ rsend[s] # <<>> /\ Head(rsend[s]) = r IN
           /\ rsend' = [rsend EXCEPT ![s] = Tail(@)]
           /\ pc' = [pc EXCEPT ![r] = "get.woken", ![s] = NextSend(s, Tail(rsend[s]))]
-          /\ obs' = O!OWoken(obs, r)
+          /\ obs' = G(O!OWoken(obs, r))
      ELSE /\ pc' = [pc EXCEPT ![r] = "recv"]
           /\ UNCHANGED <<rsend, obs>>
   /\ UNCHANGED <<now, ticks, lru, ent, est, nextEnt, elock, slock, store,
@@ -267,7 +270,7 @@ ReadStatus(r) ==
   /\ pc[r] = "get.woken" /\ ~ResumeRelooks
   /\ rst' = [rst EXCEPT ![r] = est[rent[r]].status]
   /\ pc' = [pc EXCEPT ![r] = "get.read2"]
-  /\ obs' = O!OResume(obs, r, est[rent[r]].status)
+  /\ obs' = G(O!OResume(obs, r, est[rent[r]].status))
   /\ UNCHANGED <<now, ticks, lru, ent, est, nextEnt, elock, slock, store,
                  rkey, rdisp, rmeth, rent, rresp, rout, rttl, rsend, rver,
                  ppc, pkey, ptodo, pcur, starts, nver, purges, kills, drops>>
@@ -283,7 +286,7 @@ ReadResp(r) ==
 AgeStep(r) ==
   /\ pc[r] = "age.lock" /\ elock[rent[r]] = Free
   /\ pc' = [pc EXCEPT ![r] = "end"]
-  /\ obs' = O!OAge(obs, r, now - est[rent[r]].createdAt, now)
+  /\ obs' = G(O!OAge(obs, r, now - est[rent[r]].createdAt, now))
   /\ UNCHANGED <<now, ticks, lru, ent, est, nextEnt, elock, slock, store,
                  rkey, rdisp, rmeth, rent, rst, rresp, rout, rttl, rsend, rver,
                  ppc, pkey, ptodo, pcur, starts, nver, purges, kills, drops>>
@@ -292,7 +295,7 @@ AgeStep(r) ==
 UpStart(r) ==
   /\ pc[r] = "next"
   /\ pc' = [pc EXCEPT ![r] = "upstream"]
-  /\ obs' = O!OUpStart(obs, r)
+  /\ obs' = G(O!OUpStart(obs, r))
   /\ UNCHANGED <<now, ticks, lru, ent, est, nextEnt, elock, slock, store,
                  rkey, rdisp, rmeth, rent, rst, rresp, rout, rttl, rsend, rver,
                  ppc, pkey, ptodo, pcur, starts, nver, purges, kills, drops>>
@@ -308,7 +311,7 @@ FetchEnd(r, out, T) ==
   /\ rout' = [rout EXCEPT ![r] = out] /\ rttl' = [rttl EXCEPT ![r] = T]
   /\ nver' = IF hasResp THEN v ELSE nver
   /\ rver' = [rver EXCEPT ![r] = IF hasResp THEN v ELSE 0]
-  /\ obs' = O!OUpEnd(obs, r, hasResp, IF out = "cacheable" THEN T ELSE 0)
+  /\ obs' = G(O!OUpEnd(obs, r, hasResp, IF out = "cacheable" THEN T ELSE 0))
   /\ pc' = [pc EXCEPT ![r] =
         IF rst[r] # "fetching" THEN "end"
         ELSE IF out = "cacheable" THEN "cab.lock" ELSE "hfp.lock"]
@@ -325,7 +328,7 @@ CLock(r) ==
                                           !.expiredAt = now + rttl[r], !.waiters = <<>>]]
   /\ rsend' = [rsend EXCEPT ![r] = E.waiters]
   /\ pc' = [pc EXCEPT ![r] = IF E.waiters = <<>> THEN "cab.save" ELSE "cab.send"]
-  /\ obs' = O!OPublish(obs, e, E.disp, E.key, rver[r], now, rttl[r])
+  /\ obs' = G(O!OPublish(obs, e, E.disp, E.key, rver[r], now, rttl[r]))
   /\ UNCHANGED <<now, ticks, lru, ent, nextEnt, slock, store, rkey, rdisp, rmeth, rent, rst, rresp, rout, rttl, rver,
                  ppc, pkey, ptodo, pcur, starts, nver, purges, kills, drops>>
 
@@ -337,7 +340,7 @@ HLock(r) ==
   /\ est' = [est EXCEPT ![e] = [E EXCEPT !.status = "hitForPass", !.expiredAt = now + eff, !.waiters = <<>>]]
   /\ rsend' = [rsend EXCEPT ![r] = E.waiters]
   /\ pc' = [pc EXCEPT ![r] = IF E.waiters = <<>> THEN "hfp.save" ELSE "hfp.send"]
-  /\ obs' = O!OHfp(obs, e, E.disp, E.key, now, eff)
+  /\ obs' = G(O!OHfp(obs, e, E.disp, E.key, now, eff))
   /\ UNCHANGED <<now, ticks, lru, ent, nextEnt, slock, store, rkey, rdisp, rmeth, rent, rst, rresp, rout, rttl, rver,
                  ppc, pkey, ptodo, pcur, starts, nver, purges, kills, drops>>
 
@@ -349,7 +352,7 @@ SendBegin(s) ==
   /\ IF pc[w] = "recv"
      THEN /\ rsend' = [rsend EXCEPT ![s] = Tail(@)]
           /\ pc' = [pc EXCEPT ![w] = "get.woken", ![s] = NextSend(s, Tail(rsend[s]))]
-          /\ obs' = O!OWoken(obs, w)
+          /\ obs' = G(O!OWoken(obs, w))
      ELSE /\ pc' = [pc EXCEPT ![s] = IF pc[s] = "cab.send" THEN "cab.sending" ELSE "hfp.sending"]
           /\ UNCHANGED <<rsend, obs>>
   /\ UNCHANGED <<now, ticks, lru, ent, est, nextEnt, elock, slock, store,
@@ -380,7 +383,7 @@ End(r) ==
       v == IF lab = "hit" THEN rresp[r] ELSE rver[r] IN
   /\ pc[r] = "end"
   /\ pc' = [pc EXCEPT ![r] = "idle"]
-  /\ obs' = O!OEnd(obs, r, lab, err, v)
+  /\ obs' = G(O!OEnd(obs, r, lab, err, v))
   /\ UNCHANGED <<now, ticks, lru, ent, est, nextEnt, elock, slock, store,
                  rkey, rdisp, rmeth, rent, rst, rresp, rout, rttl, rsend, rver,
                  ppc, pkey, ptodo, pcur, starts, nver, purges, kills, drops>>
@@ -414,7 +417,7 @@ PurgeRemove(p) ==
   /\ IF HasStore[d]
      THEN /\ slock' = [slock EXCEPT ![d][z] = p]
           /\ ppc' = [ppc EXCEPT ![p] = "purge.delete"]
-          /\ obs' = o1
+          /\ obs' = G(o1)
           /\ UNCHANGED <<ptodo, pcur>>
      ELSE /\ obs' = O!OPurged(o1, d, k)
           /\ IF ptodo[p] = <<>>
@@ -434,7 +437,7 @@ PurgeDelete(p, ok) ==
   /\ ok \in SaveResults
   /\ store' = IF ok THEN [store EXCEPT ![d][k] = NoRec] ELSE store
   /\ slock' = [slock EXCEPT ![d][z] = Free]
-  /\ obs' = O!OPurged(obs, d, k)
+  /\ obs' = G(O!OPurged(obs, d, k))
   /\ IF ptodo[p] = <<>>
      THEN /\ ppc' = [ppc EXCEPT ![p] = "idle"] /\ UNCHANGED <<ptodo, pcur>>
      ELSE /\ ppc' = [ppc EXCEPT ![p] = "purge.lock"]
